@@ -260,7 +260,22 @@ func directC08(g *G, rep *Report) {
 		recur := false
 		lastKey := ""
 		for k := 0; k < nops; k++ {
-			op := c08Op{kind: "render", tmpl: tmpls[r.Intn(len(tmpls))].full(), di: r.Intn(len(datas)), ij: r.Intn(3) > 0, msgs: r.Intn(3) == 0}
+			ti := r.Intn(len(tmpls))
+			op := c08Op{kind: "render", tmpl: tmpls[ti].full(), di: r.Intn(len(datas)), ij: r.Intn(3) > 0, msgs: r.Intn(3) == 0}
+			if tmpls[ti].recursive {
+				// recursion depth is bounded by the data (the property's guard): another template's data set may
+				// bind i to 2^40, which is a stack overflow of the Go runtime, not a render outcome
+				switch v := datas[op.di]["i"].(type) {
+				case data.Int:
+					if v > 64 {
+						op.di = ti
+					}
+				case data.Float:
+					if v > 64 {
+						op.di = ti
+					}
+				}
+			}
 			if r.Intn(6) == 0 {
 				op.kind = "js"
 			}
